@@ -318,6 +318,12 @@ theorem step_inv {s : State} (inv : Inv s) (st : Step) : Inv (step .repaired s s
   | finish h => exact step_inv_finish inv h
   | abort h => exact step_inv_abort inv h
   | drop h => exact step_inv_drop inv h
+  | dgUnlock h => simp only [step, Proto.repaired, Bool.false_eq_true, false_and, if_false]; split <;> exact inv
+  | dgLock h => simp only [step, Proto.repaired, Bool.false_eq_true, false_and, if_false]; split <;> exact inv
+  | dgFail h => simp only [step, Proto.repaired, Bool.false_eq_true, false_and, if_false]; split <;> exact inv
+  | ugUnlock h => simp only [step, Proto.repaired, Bool.false_eq_true, false_and, if_false]; split <;> exact inv
+  | ugLock h => simp only [step, Proto.repaired, Bool.false_eq_true, false_and, if_false]; split <;> exact inv
+  | ugFail h => simp only [step, Proto.repaired, Bool.false_eq_true, false_and, if_false]; split <;> exact inv
 
 theorem init_inv : Inv init :=
   ⟨fun _ h => (by cases h), fun _ h => (by cases h), fun _ _ h => (by cases h),
